@@ -9,7 +9,7 @@ CONSTANTS
   IsCompact <- MCIsCompact
   MaxBatch = 2
   ChunkSizes = {1}
-  MaxVer = 5
+  MaxVer = 3
   MaxRestarts = 2
   MaxOps = 0
   OrigNames = FALSE
